@@ -74,19 +74,28 @@ func VerifC15FailuresV1() {
 		{PutRequest: &dynamodb.PutRequest{Item: vItem{"p": vS("n"), "v": vS(x)}}},
 		{DeleteRequest: &dynamodb.DeleteRequest{Key: vItem{"p": vS("k")}}},
 	}
+	// the failure comes first, whatever else is wrong with the request
+	var names map[string]*string
+	stored := tbl
+	switch nd.Choice("request-flavour", 3) {
+	case 1:
+		tbl = aws.String("nosuch")
+	case 2:
+		names = map[string]*string{"#unused": aws.String("v")}
+	}
 	switch nd.Choice("op", 8) {
 	case 0:
-		_, err = c.PutItem(&dynamodb.PutItemInput{TableName: tbl, Item: vItem{"p": vS("k"), "v": vS(x)}})
+		_, err = c.PutItem(&dynamodb.PutItemInput{TableName: tbl, Item: vItem{"p": vS("k"), "v": vS(x)}, ExpressionAttributeNames: names})
 	case 1:
-		_, err = c.GetItem(&dynamodb.GetItemInput{TableName: tbl, Key: vItem{"p": vS("k")}})
+		_, err = c.GetItem(&dynamodb.GetItemInput{TableName: tbl, Key: vItem{"p": vS("k")}, ExpressionAttributeNames: names})
 	case 2:
-		_, err = c.UpdateItem(&dynamodb.UpdateItemInput{TableName: tbl, Key: vItem{"p": vS("k")}, UpdateExpression: aws.String("SET v = :x"), ExpressionAttributeValues: vItem{":x": vS(x)}})
+		_, err = c.UpdateItem(&dynamodb.UpdateItemInput{TableName: tbl, Key: vItem{"p": vS("k")}, UpdateExpression: aws.String("SET v = :x"), ExpressionAttributeValues: vItem{":x": vS(x)}, ExpressionAttributeNames: names})
 	case 3:
-		_, err = c.DeleteItem(&dynamodb.DeleteItemInput{TableName: tbl, Key: vItem{"p": vS("k")}})
+		_, err = c.DeleteItem(&dynamodb.DeleteItemInput{TableName: tbl, Key: vItem{"p": vS("k")}, ExpressionAttributeNames: names})
 	case 4:
-		_, err = c.Query(&dynamodb.QueryInput{TableName: tbl, KeyConditionExpression: aws.String("p = :p"), ExpressionAttributeValues: vItem{":p": vS("k")}})
+		_, err = c.Query(&dynamodb.QueryInput{TableName: tbl, KeyConditionExpression: aws.String("p = :p"), ExpressionAttributeValues: vItem{":p": vS("k")}, ExpressionAttributeNames: names})
 	case 5:
-		_, err = c.Scan(&dynamodb.ScanInput{TableName: tbl})
+		_, err = c.Scan(&dynamodb.ScanInput{TableName: tbl, ExpressionAttributeNames: names})
 	case 6:
 		_, err = c.TransactWriteItems(&dynamodb.TransactWriteItemsInput{})
 	case 7:
@@ -122,7 +131,7 @@ func VerifC15FailuresV1() {
 		DeactiveForceFailure(c)
 	}
 	nd.Assert(vSameS(before, vScanV1(c)), "C15v1-failing-call-changes-nothing")
-	_, err = c.PutItem(&dynamodb.PutItemInput{TableName: tbl, Item: vItem{"p": vS("k"), "v": vS("after")}})
+	_, err = c.PutItem(&dynamodb.PutItemInput{TableName: stored, Item: vItem{"p": vS("k"), "v": vS("after")}})
 	nd.Assert(err == nil, "C15v1-works-after-deactivation")
 	nd.Reach("end")
 }
